@@ -41,6 +41,7 @@ pub fn all() -> Vec<Regression> {
         Regression { name: "D23-bdf-lands-on-xend", property: "C03", what: "BDF backward from 1 to 0 with first_step=span, max_step=span/3.7 must report monotone times ending at xend", f: d23 },
         Regression { name: "D24-event-located-by-function-value", property: "C08", what: "g = 1e-6*(t-c) with c 1e-9 past a step end must be located at c (not at the step end)", f: d24 },
         Regression { name: "D24-event-located-by-function-value-count", property: "C09", what: "g = 1e-6*(t-c): exactly one event within 2e-11 of c", f: d24 },
+        Regression { name: "D25-brent-leaves-bracket", property: "C08", what: "backward DOP853 with a long first step: every event of cos(3t) must lie inside the span", f: d25 },
         Regression { name: "D16-rk4-dense-order", property: "C07", what: "RK4 cubic Hermite dense output must be O(h^4) inside a step", f: d16 },
     ]
 }
@@ -501,6 +502,21 @@ fn d24() -> Result<(), String> {
     let s = sol_of(&r)?;
     if s.t_events[0].len() != 1 || (s.t_events[0][0] - c0).abs() > 2e-11 {
         return Err(format!("events reported at {:?}, root at {:e}", s.t_events[0], c0));
+    }
+    Ok(())
+}
+
+fn d25() -> Result<(), String> {
+    let p = crate::problems::reflect(&base(Base::Harmonic(1.5)));
+    let mut c = Cfg::new(Method::DOP853, 0.0, -2.5, &p.y0).tol(1e-4, 1e-6);
+    c.first_step = Some(-0.75);
+    c.events = vec![EventSpec::new(EvKind::Cos(3.0))];
+    let r = run(&p, &c);
+    let s = sol_of(&r)?;
+    for t in &s.t_events[0] {
+        if *t > 0.0 || *t < -2.5 {
+            return Err(format!("event reported at t={:e}, outside [0,-2.5]: {:?}", t, s.t_events[0]));
+        }
     }
     Ok(())
 }
